@@ -3,7 +3,8 @@
    "fix:" commit, see known_findings.json): C16_unguarded_count_refuted keeps the refutation of the
    unguarded computation, C16_total states "never panics" for the repaired function. *)
 From Coq Require Import NArith List Bool String.
-From BM Require Import Base.Outcome Base.Prims Base.Own Base.Layout Model.Alloc Proofs.AllocProofs.
+From BM Require Import Base.Outcome Base.Prims Base.Own Base.Layout Model.Alloc Proofs.AllocProofs Proofs.CollectGen.
+From BM.Gen Require Alloc.
 Import ListNotations.
 Open Scope N_scope.
 
@@ -27,6 +28,25 @@ Proof. exact collect_zst_target. Qed.
 Theorem C16_unguarded_count_refuted : forall n, collect_count n 0 = Panic W_div_zero.
 Proof. exact collect_count_unguarded_panics. Qed.
 
+(* the function as the translator regenerates it from src/allocation.rs (Gen/Alloc.v), run on any memory:
+   for every valid source slice it returns exactly the modelled vector (count, source bytes, zero tail),
+   so the theorems above describe the code; without the (astronomical) size bound the only other outcome
+   is vec!'s capacity-overflow panic, never undefined behaviour *)
+Theorem C16_generated : forall ENV A B s, wf_ty A -> wf_ty B -> valid_slice A s -> slen s * sz A + sz B <= ISIZE_MAX ->
+  Gen.Alloc.pod_collect_to_vec ENV A B s =
+  (r <- pod_collect_to_vec B (read_bytes (mem ENV) (addr (sptr s)) (slen s * sz A)) ;; Ret (mkBV (fst r) (snd r))).
+Proof. exact gen_pod_collect. Qed.
+
+Theorem C16_generated_never_ub : forall ENV A B s, wf_ty A -> wf_ty B -> valid_slice A s ->
+  match Gen.Alloc.pod_collect_to_vec ENV A B s with UB _ => False | _ => True end.
+Proof. exact gen_pod_collect_safe. Qed.
+
+Example C16_generated_nonvacuous :
+  let E := mkEnv (fun _ => false) (fun a => a mod 7 + 1) (fun _ _ => 0) in
+  Gen.Alloc.pod_collect_to_vec E (mkTy 1 1) (mkTy 4 4) (mkSlice (mkPtr 4097 5) 5) = Ret (mkBV 2 [3; 4; 5; 6; 7; 0; 0; 0]) /\
+  Gen.Alloc.pod_collect_to_vec E (mkTy 2 2) (mkTy 0 1) (mkSlice (mkPtr 4096 6) 3) = Ret bvec_empty.
+Proof. split; vm_compute; reflexivity. Qed.
+
 Example C16_nonvacuous : pod_collect_to_vec (mkTy 4 4) [1; 2; 3; 4; 5] = Ret (2, [1; 2; 3; 4; 5; 0; 0; 0]).
 Proof. reflexivity. Qed.
 
@@ -35,3 +55,5 @@ Print Assumptions C16_count.
 Print Assumptions C16_total.
 Print Assumptions C16_zst_target.
 Print Assumptions C16_unguarded_count_refuted.
+Print Assumptions C16_generated.
+Print Assumptions C16_generated_never_ub.
